@@ -578,6 +578,10 @@ func recordReplay(prop string, h HarnessSpec, v *Violation, overlayFiles map[str
 		return '_'
 	}, site)
 	dir := filepath.Join(verifDir, "replays", prop, h.Func+"-"+site)
+	if d := os.Getenv("VERIF_REPO"); d != "" {
+		// trials of seeded changes (tools/try_seed.sh) keep their replays with their scratch tree
+		dir = filepath.Join(d+".verif", "replays", prop, h.Func+"-"+site)
+	}
 	for i := 1; ; i++ {
 		if _, err := os.Stat(dir); err != nil {
 			break
